@@ -28,7 +28,7 @@ ASSUMPTIONS = [
     "KeyFile.generate_key() (explicit regeneration API) is exercised only while no context is open on that path",
 ]
 REQUIRED = ["op:enter", "op:exit", "op:encrypt", "op:decrypt", "op:external", "disk:absent", "disk:valid",
-            "disk:malformed", "enter:rejected", "enter:created", "outside-context-use", "exit:by-exception", "op:genkey"]
+            "disk:malformed", "enter:rejected", "enter:created", "outside-context-use", "exit:by-exception", "op:genkey", "path:home-relative"]
 LEVEL_TEXT = (
     "Generated histories against an explicit reference model of the key-file life cycle, invariant checked after "
     "every step; shows the property on the explored histories and kills the listed mutants (key kept after "
@@ -73,6 +73,7 @@ def strategy(tier):
     )
     return st.fixed_dictionaries({
         "init": st.lists(content, min_size=2, max_size=2),
+        "home_path": st.booleans(),
         "ops": st.lists(op, min_size=1, max_size=max_ops),
     })
 
@@ -116,6 +117,14 @@ def run_case(case, R):
     with sandbox.CaseDir() as d:
         paths = [os.path.join(d, "keys", "k0.key"), os.path.join(d, "keys", "k1.key")]
         os.makedirs(os.path.join(d, "keys"))
+        # the name a KeyFile object is given for a path: path 1 may be spelled relative to the home directory ("~/...")
+        home_dir = os.path.join(sandbox.home(), "c07-" + os.path.basename(d))
+        spelled = {}
+        if case.get("home_path"):
+            os.makedirs(home_dir, exist_ok=True)
+            paths[1] = os.path.join(home_dir, "k1.key")
+            spelled[paths[1]] = "~/" + os.path.relpath(paths[1], sandbox.home())
+            R.label("path:home-relative")
         disk = [None, None]  # None absent | bytes | "uncreatable"
 
         def set_disk(i, content):
@@ -126,7 +135,7 @@ def run_case(case, R):
                 os.unlink(p)
             if os.path.isfile(blocker):
                 os.unlink(blocker)
-            paths[i] = os.path.join(d, "keys", "k%d.key" % i)
+            paths[i] = os.path.join(home_dir, "k1.key") if (i == 1 and case.get("home_path")) else os.path.join(d, "keys", "k%d.key" % i)
             p = paths[i]
             kind = content["kind"]
             R.label("disk:" + kind)
@@ -183,7 +192,7 @@ def run_case(case, R):
             if name == "new" or not objs:
                 pi = op.get("path", 0)
                 # the path object is created for the *current* location of that path
-                objs.append(_Obj(cc.KeyFile(paths[pi]), pi))
+                objs.append(_Obj(cc.KeyFile(spelled.get(paths[pi], paths[pi])), pi))
                 R.label("op:new")
                 if created[pi]:
                     sessions_after_create[pi] += 1
